@@ -98,7 +98,7 @@ def _run_chunk(args):
         for v in res.violations:
             cls = v.sig_class()
             agg["viol_count"][cls] += 1
-            if agg["viol_count"][cls] == 1 and len(agg["violations"]) < 64:
+            if agg["viol_count"][cls] <= 3 and len(agg["violations"]) < 96:
                 agg["violations"].append((idx, run_seed, case, v.signature, v.message, res.digest))
     faulthandler.cancel_dump_traceback_later()
     return agg
@@ -228,8 +228,12 @@ def main(eng) -> int:
 
     # ---------------------------------------------------------------- violations
     by_class: Dict[str, tuple] = {}
+    alternates: Dict[str, list] = {}
     for v in sorted(total["violations"], key=lambda t: t[0]):
         cls = core.cjson(v[3])
+        if cls in by_class:
+            if len(alternates.setdefault(cls, [])) < 4:
+                alternates[cls].append(v)
         by_class.setdefault(cls, v)
     known_hit: Dict[str, int] = {}
     known_desc: Dict[str, str] = {}
@@ -251,11 +255,20 @@ def main(eng) -> int:
     for v in unlisted:
         if reported >= MAX_CLASSES_REPORTED or reported + unconfirmed >= 2 * MAX_CLASSES_REPORTED:
             break
-        idx, run_seed, case, sig, msg, digest = v
-        viol = Violation(sig, msg)
-        small, sres, sviol = shrink_case(eng, case, viol)
-        path = core.write_replay(eng.PROPERTY, eng.ENGINE, a.seed, run_seed, small, sviol, sres.digest, tree)
-        if _confirm_in_fresh_interpreter(eng, path):
+        confirmed = False
+        for cand in [v] + alternates.get(core.cjson(v[3]), []):
+            idx, run_seed, case, sig, msg, digest = cand
+            viol = Violation(sig, msg)
+            small, sres, sviol = shrink_case(eng, case, viol)
+            path = core.write_replay(eng.PROPERTY, eng.ENGINE, a.seed, run_seed, small, sviol, sres.digest, tree)
+            if _confirm_in_fresh_interpreter(eng, path):
+                confirmed = True
+                break
+            try:
+                os.remove(path)
+            except OSError:
+                pass
+        if confirmed:
             print(f"violation (index {idx}, run_seed {run_seed}, {total['viol_count'][core.cjson(sig)]}x in this batch): {sviol.message}")
             print(f"VIOLATION property={eng.PROPERTY} replay={path}", flush=True)
             exit_code = 1
@@ -266,10 +279,6 @@ def main(eng) -> int:
             # violation; if nothing replayable is found in the batch the run ends as a harness failure.
             unconfirmed += 1
             print(f"UNCONFIRMED property={eng.PROPERTY}: a violation seen in a worker did not replay in a fresh interpreter (process-history dependent): {sviol.message[:300]}")
-            try:
-                os.remove(path)
-            except OSError:
-                pass
     if len(unlisted) > reported + unconfirmed:
         print(f"({len(unlisted) - reported - unconfirmed} further distinct violation classes not written out)")
     if unconfirmed and exit_code == 0:
